@@ -106,6 +106,17 @@ theorem dropWhile_word (w : Str) (hw : ' ' ∉ w) : w.dropWhile (· ≠ ' ') = [
     have := ih (fun e => hw (by simp [e]))
     simpa [List.dropWhile, ha] using this
 
+/-- a computable test for `Trimmed` (used on concrete texts) -/
+def trimmedB (c : Str) : Bool :=
+  (match c.head? with | some a => !isSpace a | none => true) &&
+  (match c.getLast? with | some b => !isSpace b | none => true)
+
+theorem trimmed_of_check (c : Str) (h : trimmedB c = true) : Trimmed c := by
+  simp only [trimmedB, Bool.and_eq_true] at h
+  refine ⟨fun a ha => ?_, fun b hb => ?_⟩
+  · have := h.1; rw [ha] at this; simpa using this
+  · have := h.2; rw [hb] at this; simpa using this
+
 /-- the annotation splitter on `blanks word [blanks]` -/
 theorem splitFirstWord_word (pre w post : Str) (hpre : ∀ c ∈ pre, isSpace c = true) (hw : Word w)
     (hpost : ∀ c ∈ post, isSpace c = true) :
